@@ -24,12 +24,12 @@ func (C12) Plan(tier string) core.Plan {
 
 func (C12) Info() core.Info {
 	return core.Info{
-		Rule: "2-4 simulated caller threads x 1-3 operations each (Call, Convert, Redefine) over one shared target *Func, shared converter *Funcs and shared option values reused verbatim by every thread (Named, NamedSubtype, Typed, TypedSubtype, Converter, ConverterFunc, ConverterGen, FilterInput/Output, defaults given to NewFunc); targets and converters wrap ordinary functions (no FuncOnce, no BuildFunc, as the statement says). Schedules alternate: even = the same operations run sequentially (baseline of outcomes), odd = concurrent under the baton scheduler with seeded preemption (random at every yield point, at shared accesses only, targeted at the n-th shared access, none). Oracle 1: the simulator's happens-before detector (vector clocks over every woven read/write of memory reachable through a pointer, slice, captured or package-level variable, every map read/write, lock/once edges) reports no unordered conflicting pair. Oracle 2: every concurrent operation returns; on worlds whose outcome does not depend on iteration order (C05 classes) its outcome kind is one the sequential baseline produced for that operation; and every party execution satisfies the provenance invariant. Non-trivial: >=2 threads overlapped (>=1 context switch) on >=1 shared converter or option; distinct = distinct (world shape, event-log hash)",
+		Rule: "2-4 simulated caller threads x 1-3 operations each (Call, Convert, Redefine, calls of one shared redefined function made beforehand) over one shared target *Func, shared converter *Funcs and shared option values reused verbatim by every thread (Named, NamedSubtype, Typed, TypedSubtype, Converter, ConverterFunc, ConverterGen, FilterInput/Output, defaults given to NewFunc); targets and converters wrap ordinary functions (no FuncOnce, no BuildFunc, as the statement says). Schedules alternate: even = the same operations run sequentially (baseline of outcomes), odd = concurrent under the baton scheduler with seeded preemption (random at every yield point, at shared accesses only, targeted at the n-th shared access, none). Oracle 1: the simulator's happens-before detector (vector clocks over every woven read/write of memory reachable through a pointer, slice, captured or package-level variable, every map read/write, lock/once edges) reports no unordered conflicting pair. Oracle 2: every concurrent operation returns; on worlds whose outcome does not depend on iteration order (C05 classes) its outcome kind is one the sequential baseline produced for that operation; and every party execution satisfies the provenance invariant. Non-trivial: >=2 threads overlapped (>=1 context switch) on >=1 shared converter or option; distinct = distinct (world shape, event-log hash)",
 		Assumptions: []string{
 			"the detector sees woven access forms only: party bodies, reflect, hclog and multierror internals are outside it",
 			"races are properties of the happens-before relation, not of the interleaving that happened to run: one concurrent run suffices to report a pair it covers",
 		},
-		Probes:    []string{"c12_concurrent_runs", "c12_context_switches", "c12_shared_namedsubtype", "c12_shared_converter_func", "c12_shared_generator", "c12_redefine_ops", "c12_mode_targeted", "c12_accesses_checked", "c12_outcomes_compared"},
+		Probes:    []string{"c12_concurrent_runs", "c12_context_switches", "c12_shared_namedsubtype", "c12_shared_converter_func", "c12_shared_generator", "c12_redefine_ops", "c12_shared_redefined_func", "c12_mode_targeted", "c12_accesses_checked", "c12_outcomes_compared"},
 		Real:      realComponents,
 		Simulated: append(append([]string{}, simComponents...), "S2: simulated caller threads run one at a time under a baton; the PRNG picks who runs at every woven yield point; vector-clock race detector over woven accesses"),
 	}
@@ -64,6 +64,18 @@ func (C12) Gen(r *simrt.RNG, tier string) core.Case {
 	}
 	w.Threads = 2 + r.Intn(3)
 	w.Ops = nil
+	redef := -1
+	if r.Chance(1, 4) {
+		// the threads share a redefined function made beforehand on the main thread
+		var sub []int
+		for _, a := range base {
+			if k := w.Args[a].Kind; !(k == world.ArgNamed || k == world.ArgTyped) || r.Bool() {
+				sub = append(sub, a)
+			}
+		}
+		w.Ops = append(w.Ops, world.Op{Kind: world.OpRedefine, Target: 0, Args: sub, Thread: -1})
+		redef = 0
+	}
 	for t := 0; t < w.Threads; t++ {
 		n := 1 + r.Intn(3)
 		for i := 0; i < n; i++ {
@@ -73,6 +85,9 @@ func (C12) Gen(r *simrt.RNG, tier string) core.Case {
 				op = world.Op{Kind: world.OpConvert, Type: ty, Args: base, Thread: t}
 			case 1:
 				op = world.Op{Kind: world.OpRedefine, Target: 0, Args: base, Thread: t}
+			}
+			if redef >= 0 && r.Chance(2, 3) {
+				op = world.Op{Kind: world.OpCallRedef, Redef: redef, Thread: t}
 			}
 			w.Ops = append(w.Ops, op)
 		}
@@ -91,10 +106,15 @@ func c12Valid(w world.World) bool {
 	}
 	used := map[int]bool{}
 	for _, o := range w.Ops {
-		if o.Kind == world.OpCallRedef {
+		if o.Kind == world.OpCallRedef && (o.Redef < 0 || o.Redef >= len(w.Ops) || w.Ops[o.Redef].Thread >= 0) {
 			return false
 		}
-		used[o.Thread] = true
+		if o.Thread >= w.Threads {
+			return false
+		}
+		if o.Thread >= 0 {
+			used[o.Thread] = true
+		}
 	}
 	for _, a := range w.Args {
 		switch a.Kind {
@@ -205,6 +225,9 @@ func (C12) Run(c core.Case, ctx *core.Ctx) []core.Violation {
 		for oi, res := range rt.Results {
 			if w.Ops[oi].Kind == world.OpRedefine {
 				ctx.St.Inc("c12_redefine_ops")
+			}
+			if w.Ops[oi].Kind == world.OpCallRedef && res != nil && res.ErrKind != "skipped" {
+				ctx.St.Inc("c12_shared_redefined_func")
 			}
 			if res != nil && !res.Returned {
 				add(res.PanicClass, res.PanicSite, fmt.Sprintf("concurrent op %d (%s, thread %d) did not return: %s", oi, w.Ops[oi].Kind, w.Ops[oi].Thread, trunc(res.PanicDetail)))
